@@ -49,11 +49,17 @@ class Workload:
         idx = 0
         base = base_statements(ctx.seed, self.n_templates)
         # class 1+2: corpus and templates, each in all dialects
-        for label, s in base:
+        for bi, (label, s) in enumerate(base):
             for d in self.dialects:
                 if ctx.mine(idx):
                     yield idx, label, d, s
                 idx += 1
+            # the same statement in lower case / with the case of every letter swapped (keywords are case-insensitive)
+            if bi % 6 == 0 and label != 'corpus':
+                for variant, t in (('lower', s.lower()), ('swapcase', s.swapcase())):
+                    if ctx.mine(idx):
+                        yield idx, label + '~' + variant, self.dialects[0], t
+                    idx += 1
         # class 3: token-level mutations of base statements
         for j in range(self.n_mut):
             if ctx.mine(idx):
